@@ -189,7 +189,7 @@ func runJob(prog *ssa.Program, fn *ssa.Function, j *Job, jf *JobFile, ov map[str
 		pm = map[string]int{}
 	}
 	ecfg := exec.Config{MaxSteps: flagOr(j, "max-steps", 2000000), MaxVisits: flagOr(j, "unwind", 64), MaxPaths: flagOr(j, "max-paths", 500000),
-		MaxDepth: flagOr(j, "max-depth", 64), AllocLimit: flagOr(j, "alloc-limit", 64), Params: pm, Preempt: flagOr(j, "preempt", 2), Verbose: verbose, Progress: flagOr(j, "progress", 20), MaxViolations: flagOr(j, "max-violations", 0), EagerChecks: flagOr(j, "lazy-checks", 0) == 0, Profile: flagOr(j, "profile", 0) == 1, ConcIndex: flagOr(j, "conc-index", 0) == 1, UnwindIsHang: flagOr(j, "unwind-is-hang", 0) == 1, Stubs: j.Stubs}
+		MaxDepth: flagOr(j, "max-depth", 64), AllocLimit: flagOr(j, "alloc-limit", 64), Params: pm, Preempt: flagOr(j, "preempt", 2), Verbose: verbose, Progress: flagOr(j, "progress", 20), MaxViolations: flagOr(j, "max-violations", 0), PerSite: flagOr(j, "per-site", 1), EagerChecks: flagOr(j, "lazy-checks", 0) == 0, Profile: flagOr(j, "profile", 0) == 1, ConcIndex: flagOr(j, "conc-index", 0) == 1, UnwindIsHang: flagOr(j, "unwind-is-hang", 0) == 1, Stubs: j.Stubs}
 	if b := flagOr(j, "budget-s", 0); b > 0 {
 		ecfg.Deadline = time.Now().Add(time.Duration(b) * time.Second)
 	}
